@@ -212,6 +212,7 @@ theorem propReq_gen {s : State} {pth : List Nat} {n : Nat} {self : Bool} {d dnp 
   intro m q' hq'
   obtain ⟨q, hq, h2, h3, h4, h5, h6, h7, h8⟩ := hall m q' hq'
   obtain ⟨a1, b1, c1, c2, f⟩ := hg m q hq
+  dsimp only
   refine ⟨by rw [h2.pods, ← a1, h3]; omega, by rw [h2.pods, ← b1, h4]; omega, by rw [h5]; omega, by rw [h6]; omega, ?_⟩
   intro hr hR
   rcases hR with hR | hR
